@@ -42,7 +42,7 @@ def orders(rng):
 
 def correspond(ctx):
     rng, tier = ctx["rng"], ctx["tier"]
-    n = 8 if tier == "quick" else 60
+    n = 8 if tier == "quick" else 200
     cases, meta = [], []
     for k in range(n):
         cfg = scc.gen_config(rng, "small")
